@@ -183,13 +183,16 @@ def h_groups(recs):
     return out
 
 
-def t_hren(recs, rng):
-    """equivalent hydrogens (same parent heavy atom) exchange their names; coordinates stay with the line"""
+def t_hren(recs, rng, last=False):
+    """equivalent hydrogens (same parent heavy atom) exchange their names; coordinates stay with the line
+    (`last`: deterministic variant, every group is rotated by one position backwards)"""
     recs = [dict(r) if isinstance(r, dict) else r for r in recs]
     n = 0
     for grp in h_groups(recs):
         names = [recs[i]['name'] for i in grp]
         k = rng.randrange(1, len(names)) if rng.random() < 0.8 else 0
+        if last:
+            k = len(names) - 1
         names = names[k:] + names[:k]
         for i, nm in zip(grp, names):
             if recs[i]['name'] != nm:
@@ -623,6 +626,10 @@ def compare_coords(base_run, other_run, motion):
     for x in o:
         bykey.setdefault(x[:4], []).append(x[4])
     worst = 0.0
+    DEVIATING[:] = []
+    first_res = {}
+    for x in b:
+        first_res.setdefault(x[0], x[1])
     for x in b:
         q = bykey[x[:4]].pop(0)
         kind, A, t = motion
@@ -634,19 +641,31 @@ def compare_coords(base_run, other_run, motion):
         dev = max(abs(u - v) for u, v in zip(p, q)) / 1000.0
         worst = max(worst, dev)
         if dev > COORD_TOL:
+            DEVIATING.append((x[:4], dev, first_res[x[0]] == x[1]))
             errs.append('particle %s: moved original position %s, transformed run has %s (deviation %.4f A)'
                         % (x[:4], [round(c / 1000.0, 3) for c in p], [c / 1000.0 for c in q], dev))
-            if len(errs) > 5:
-                break
-    return errs, worst
+    return errs[:8], worst
+
+
+DEVIATING = []
+
+
+def is_f_c11_1(p, errs_other_outputs):
+    """signature of F-C11-1: hydrogens renamed, neutral N-terminus requested, nothing but the coordinates of
+    particles of the first residue of a chain differ, by at most 0.05 A"""
+    return (p['kind'] in ('hren', 'all', 'hrenlast') and ('-nt' in p['argv'] or 'NH2-ter' in p['argv'])
+            and not errs_other_outputs and DEVIATING
+            and all(first and dev <= 0.05 for _k, dev, first in DEVIATING))
 
 
 # ----------------------------------------------------------------------------------------------
 # the run matrix
 # ----------------------------------------------------------------------------------------------
 
-def n_protein_residues(recs):
-    return len(residues_of(recs))
+def n_protein_residues(recs, ignore=()):
+    """residues the -ss string has to cover: ATOM records, not ignored"""
+    return sum(1 for g in residues_of(recs)
+               if recs[g[0]]['tag'] == 'ATOM  ' and recs[g[0]]['resname'].strip() not in ignore)
 
 
 def ss_string(n, rng):
@@ -668,9 +687,9 @@ OPTSETS = {
     'm3-nt-noscfix': ['-ff', 'martini3001', '-nt', '-noscfix'],
     'm22': ['-ff', 'martini22', '-noscfix', '-ss', 'SS'],
     'm22-cys': ['-ff', 'martini22', '-noscfix', '-cys', 'auto'],
-    'm22p-posres': ['-ff', 'martini22p', '-noscfix', '-p', 'all', '-pf', '500'],
+    'm22p-posres': ['-ff', 'martini22p', '-noscfix', '-p', 'all', '-pf', '500', '-maxwarn', '100'],
     'eln22': ['-ff', 'elnedyn22', '-noscfix', '-ss', 'SS', '-eu', '0.7', '-ef', '800.0'],
-    'eln21-ter': ['-ff', 'elnedyn21', '-noscfix', '-ss', 'SS', '-nter', 'NH2-ter', '-cter', 'COOH-ter', '-ef', '500'],
+    'eln21-ter': ['-ff', 'elnedyn21', '-noscfix', '-ss', 'SS', '-nter', 'NH2-ter', '-cter', 'COOH-ter', '-ef', '500', '-maxwarn', '100'],
 }
 
 T0 = {
@@ -727,8 +746,8 @@ def make_transform(kind, recs, rng):
     motion, desc = ('none', None, None), {}
     if kind in ('perm', 'all'):
         recs = t_perm(recs, rng)
-    if kind in ('hren', 'all'):
-        recs, n = t_hren(recs, rng)
+    if kind in ('hren', 'all', 'hrenlast'):
+        recs, n = t_hren(recs, rng, last=(kind == 'hrenlast'))
         desc['renamed'] = n
     if kind == 'hname':
         recs, n = t_hname(recs, rng)
@@ -752,7 +771,8 @@ def argv_for(optset, recs, extra, rng_ss):
     argv = ['-f', 'in.pdb', '-x', 'cg.pdb', '-o', 'topol.top'] + list(OPTSETS[optset] if isinstance(optset, str) else optset)
     argv += extra
     if 'SS' in argv:
-        argv[argv.index('SS')] = ss_string(n_protein_residues(recs), rng_ss)
+        ignore = [argv[i + 1] for i, a in enumerate(argv[:-1]) if a == '-ignore']
+        argv[argv.index('SS')] = ss_string(n_protein_residues(recs, ignore), rng_ss)
     return argv
 
 
@@ -797,7 +817,7 @@ def plan_group(struct, optname, optargs, kinds, seeds, tag=''):
 
 
 for c in corpus:
-    plan_group(c['structure'], c.get('optname', 'corpus:' + ' '.join(c['options'])),
+    plan_group(c['structure'], c['optname'] if 'optname' in c else 'corpus:' + ' '.join(c['options']),
                c['options'] if 'options' in c else c['optname'], c['kinds'], c.get('hashseeds', []), tag=c.get('tag', ''))
 for struct, optname, kinds, seeds in matrix:
     plan_group(struct, optname, optname, kinds, seeds)
@@ -888,9 +908,10 @@ for p in plans:
         common_errs.append('different sets of files written: %s vs %s' % (sorted(rb['files']), sorted(ro['files'])))
     for e in ro.get('parse_errors', []) + rb.get('parse_errors', []):
         common_errs.append('unreadable ITP ' + e)
-    outputs = sorted(set(rb['files']) | set(ro['files'])) if not common_errs else ['-']
+    outputs = sorted(set(rb['files']) | set(ro['files']), key=lambda n: (n == 'cg.pdb', n)) if not common_errs else ['-']
+    other_errs = 0
     for n in outputs:
-        errs, impl, model = list(common_errs), None, None
+        errs, impl, model, finding = list(common_errs), None, None, None
         inp = json.dumps(dict(descr, output=n), sort_keys=True)
         if common_errs:
             pass
@@ -921,6 +942,8 @@ for p in plans:
         elif n == 'cg.pdb':
             e, worst = compare_coords(rb, ro, p['motion'])
             errs += e
+            if e and is_f_c11_1(p, other_errs):
+                finding = 'F-C11-1'
             impl = 'max deviation %.4f A' % worst if not e else 'differs'
             chk.count('coord_dev<=0.0015A' if worst <= 0.0015 else 'coord_dev<=0.02A' if worst <= 0.02 else 'coord_dev>0.02A')
         else:
@@ -929,6 +952,8 @@ for p in plans:
             body_o = [l for l in ro['files'][n].split('\n') if not l.startswith(';')]
             if body_b != body_o:
                 errs.append('%s differs' % n)
+        if errs and n != 'cg.pdb':
+            other_errs += 1
         if errs:
             po, pt = save_replay_files(p, b)
             inp = json.dumps(dict(descr, output=n, original_pdb=po, transformed_pdb=pt,
@@ -936,7 +961,7 @@ for p in plans:
                                          'transformed_pdb%s)' % (' '.join(p['argv']),
                                                                   '; PYTHONHASHSEED=%s' % p['seed'] if 'seed' in p else '')),
                              sort_keys=True)
-        chk.case('%s|%s' % (p['cid'], n), inp, impl, model, errs, nontrivial)
+        chk.case('%s|%s' % (p['cid'], n), inp, impl, model, errs, nontrivial, finding=finding)
 
 if os.environ.get('VERIF_C11_VERBOSE'):
     for f in chk.failures[:int(os.environ['VERIF_C11_VERBOSE'])]:
